@@ -497,6 +497,27 @@ func verifC10GenEnv(r *verifutil.Rand, pathNames []string, hostile bool) []verif
 			prefix = "RTSP"
 		}
 		switch {
+		case hostile && r.Chance(1, 4): // a name that extends (or truncates) the name of a real parameter
+			var lf verifC10Leaf
+			pre := ""
+			if r.Bool() || len(pathNames) == 0 {
+				lf = verifC10Leaves[r.Intn(len(verifC10Leaves))]
+			} else {
+				lf = pathLeaves[r.Intn(len(pathLeaves))]
+				pre = "_PATHS_" + strings.ToUpper(pathNames[r.Intn(len(pathNames))])
+			}
+			name := prefix + pre + lf.name
+			switch r.Intn(4) {
+			case 0:
+				name += "X"
+			case 1:
+				name += "_X"
+			case 2:
+				name += "S"
+			default:
+				name = name[:len(name)-1]
+			}
+			out = append(out, verifC10KV{name, verifC10EnvValue(r, lf.typ)})
 		case hostile && r.Chance(1, 3):
 			out = append(out, verifC10KV{prefix + r.Pick("_", "_PATHS", "_PATHS_", "_PATHS__", "_PATHS_A_", "_PATHS_a_SOURCE", "_PATHDEFAULTS", "_AUTHINTERNALUSERS",
 				"_AUTHINTERNALUSERS_", "_AUTHINTERNALUSERS_5_USER", "_AUTHINTERNALUSERS_0", "_AUTHINTERNALUSERS_-1_USER", "_AUTHINTERNALUSERS_0_PERMISSIONS_3_ACTION",
@@ -603,7 +624,31 @@ var verifC10Hostile = []string{
 	strings.Repeat("[", 200), strings.Repeat("a: ", 100), strings.Repeat("- ", 100) + "a", "paths:\n" + strings.Repeat("  ", 50) + "a: b",
 }
 
+// witnesses of the findings that have been fixed (must never panic again) and of the open one
+var verifC10Regress = []struct {
+	file string
+	key  *string
+	env  []verifC10KV
+}{
+	{"", verifC10Str("key"), nil}, // F-C10: empty file with MTX_CONFKEY
+	{"YWJj", verifC10Str("key"), nil},
+	{"paths:\n  foo:\n", nil, []verifC10KV{{"MTX_PATHS_FOO_SOURCE", "publisher"}}}, // null path + variable
+	{"", nil, []verifC10KV{{"MTX_WEBRTCICESERVERS", ""}}},                          // empty list, unset optional list
+	{"", nil, []verifC10KV{{"MTX_PATHS_CAM_FORWARD", ""}}},
+	{"", nil, []verifC10KV{{"MTX_PATHS_CAM_RTSPUDPSOURCEPORTRANGE", ""}}},
+	{"", nil, []verifC10KV{{"MTX_RECORDPARTDURATIONX", "1s"}}}, // open: nil receiver
+	{"", nil, []verifC10KV{{"MTX_PATHS_CAM_RTSPTRANSPORT_X", "tcp"}}},
+	{"", nil, []verifC10KV{{"MTX_AUTHMETHODS", "basic"}}},
+}
+
+func verifC10Str(s string) *string { return &s }
+
 func verifC10Gen(r *verifutil.Rand, i int, thorough bool) []string {
+	if i < len(verifC10Regress) {
+		g := verifC10Regress[i]
+		return []string{verifC10LoadOp([]byte(g.file), nil, g.key, g.env)}
+	}
+	i -= len(verifC10Regress)
 	if i < len(verifC10Hostile) {
 		return []string{verifC10LoadOp([]byte(verifC10Hostile[i]), nil, nil, nil)}
 	}
